@@ -109,6 +109,9 @@ class GenFacts:
         ns = self.module_ns()
         val = ns.get(name)
         if not isinstance(val, dict) or not val:
+            # a table that lives next to the classes it relates (moved to asm.py) is the same table
+            val = getattr(ns.get('asm'), name, None)
+        if not isinstance(val, dict) or not val:
             raise AnalysisError(f'{name}: cannot determine the table (not a dict after evaluating {GEN})')
         asm_ns, ast_ns = ns.get('asm'), ns.get('ast')
 
@@ -267,8 +270,53 @@ class GenFacts:
                     ps = None       # path set not enumerable at depth 3: stay at the quick tier's depth
             if ps is None:
                 ps = efg.enumerate_paths(fn, unroll=self.unroll, name=name)
+            inv = self._inverting_methods()
+            if inv:
+                for p in ps:
+                    self._resolve_inverting_calls(p.events, inv)
             self._paths[name] = ps
         return self._paths[name]
+
+    def _inverting_methods(self):
+        """Names of zero-argument methods of the conditional-halt classes that return the table inverse of the instruction on
+        the same operands (e.g. a new `inverted()` next to a relocated inversion table): K(a, b).m() == halt_inversion[K](a, b)
+        for every class K of the table, decided by interpreting asm.py.  Empty for today's tree."""
+        if getattr(self, '_inv_methods', None) is not None:
+            return self._inv_methods
+        out = set()
+        try:
+            ns = self.module_ns()
+            asm = ns.get('asm')
+            table = ns.get('halt_inversion') or getattr(asm, 'halt_inversion', None)
+            CH = getattr(asm, 'ConditionalHalt', None)
+            if isinstance(table, dict) and CH is not None:
+                cands = {n for k in table for n in dir(k) if not n.startswith('_') and callable(getattr(k, n, None))
+                         and n not in ('lines',)}
+                a, b = asm.IntLiteral(1), asm.IntLiteral(2)
+                for n in sorted(cands):
+                    try:
+                        if all(getattr(k(a, b), n)() == table[k](a, b) for k in table):
+                            out.add(n)
+                    except Exception:       # noqa: BLE001
+                        continue
+        except AnalysisError:
+            pass
+        self._inv_methods = out
+        return out
+
+    @staticmethod
+    def _resolve_inverting_calls(events, inv):
+        """`yield x.inverted()` where x is bound on this path to Ctor(a, b): recorded as the emission of halt_inversion[Ctor](a, b)."""
+        for idx, e in enumerate(events):
+            if e.kind != 'emit' or not e.ctor or e.args or '.' not in e.ctor:
+                continue
+            base, _, meth = e.ctor.rpartition('.')
+            if meth not in inv or not base.isidentifier():
+                continue
+            val = efg.reaching_value(events, idx, base)
+            if isinstance(val, ast.Call) and not val.keywords:
+                e.ctor = f'halt_inversion[{src(val.func)}]'
+                e.args = list(val.args)
 
     @property
     def gen_methods(self):
